@@ -178,12 +178,15 @@ def run(pid, tier, args):
             # recorded findings: re-judge the mismatching runs with the finding's named deviation switched on
             cand = [m for m in mism if m["why"] != "underflow"]
             known = {}
-            for f in vlib.known_for(pid):
+            alphas = []
+            for m in cand:
+                if m.get("alpha", alpha) not in alphas:
+                    alphas.append(m.get("alpha", alpha))
+            for f, kalpha in [(f_, a_) for f_ in vlib.known_for(pid) for a_ in alphas]:
                 if not cand or not f.get("deviation"):
                     continue
-                kd = os.path.join(wd, "known-" + f["id"])
+                kd = os.path.join(wd, "known-%s-%d" % (f["id"], alphas.index(kalpha)))
                 os.makedirs(kd)
-                kalpha = cand[0].get("alpha", alpha)
                 cand_a = [m for m in cand if m.get("alpha", alpha) == kalpha]
                 kcases = [byid[c] for c in sorted(set(m["case"] for m in cand_a))]
                 kraw = os.path.join(kd, "raw.json")
@@ -196,7 +199,7 @@ def run(pid, tier, args):
                 dev = {}
                 for fl in vlib.parse_lines(kres.lines, "EXPECT"):
                     dev[(fl[0], fl[1])] = "|".join(fl[3:])
-                for m in cand:
+                for m in cand_a:
                     if dev.get((m["case"], m["input"])) == m["real"]:
                         known[(m["case"], m["input"])] = f
             for m in cand:
